@@ -241,7 +241,16 @@ class EPollReactor(posixbase.PosixReactorBase, posixbase._PollLikeMixin):
             except KeyError:
                 pass
             else:
-                log.callWithLogger(selectable, _drdw, selectable, fd, event)
+                # A handler dispatched earlier in this batch may have stopped
+                # this selectable from reading or writing (pauseProducing,
+                # loseConnection): only deliver the events it is still
+                # registered for.
+                if fd not in self._reads:
+                    event &= ~self._POLL_IN
+                if fd not in self._writes:
+                    event &= ~self._POLL_OUT
+                if event:
+                    log.callWithLogger(selectable, _drdw, selectable, fd, event)
 
     doIteration = doPoll
 
